@@ -92,6 +92,26 @@ fn main() {
         encoded.push(bytes);
     }
 
+    // Hello boundary sweep (always, independent of the seed): every combination of the smallest values of the three
+    // validated configuration fields, so that each lower bound of ExchangedCfg::read is exercised on both sides.
+    for chunk in 0u32..6 {
+        for buf in 0u32..6 {
+            for cq in 0u16..3 {
+                for t in [None, Some(Duration::from_millis(1))] {
+                    let msg = MultiplexMsg::Hello {
+                        version: 3,
+                        cfg: ExchangedCfg { connection_timeout: t, chunk_size: chunk, port_receive_buffer: buf, connect_queue: cq },
+                    };
+                    let bytes = encode(&msg);
+                    let t = decode_text(&bytes);
+                    bump("dec.hello_boundary");
+                    bump(if t.starts_with("ERR") { "dec.result.err" } else { "dec.result.ok" });
+                    writeln!(out, "dec {} | {}", hex(&bytes), t).unwrap();
+                }
+            }
+        }
+    }
+
     // Decoder direction.
     for i in 0..count {
         let bytes: Vec<u8> = match i % 6 {
